@@ -22,7 +22,8 @@
       [created c ops s]: the denoms returned by the successful creates of the history, in order. *)
 From Coq Require Import List ZArith Bool String.
 From Paloma Require Import TokenFactory.Ledger TokenFactory.LedgerProofs TokenFactory.Denom
-  TokenFactory.DenomProofs TokenFactory.Factory TokenFactory.FactoryProofs.
+  TokenFactory.DenomProofs TokenFactory.Factory TokenFactory.FactoryProofs
+  TokenFactory.Chain TokenFactory.ChainProofs.
 From Paloma Require Gen.C16.
 Import ListNotations.
 Open Scope Z_scope.
@@ -235,3 +236,222 @@ Proof.
   exact (conj (conj eq_refl (conj eq_refl (conj eq_refl eq_refl))) (conj (conj eq_refl (conj eq_refl (conj eq_refl (conj eq_refl eq_refl)))) (conj (conj eq_refl (conj eq_refl (conj eq_refl (conj eq_refl (conj eq_refl (conj eq_refl (conj eq_refl (conj eq_refl eq_refl)))))))) (conj (conj eq_refl (conj eq_refl eq_refl)) (conj eq_refl (conj eq_refl (conj eq_refl (conj eq_refl eq_refl)))))))).
 Qed.
 Print Assumptions model_is_of_current_source.
+
+(** ======================================================================================
+    Second round.  Reading aid for the extended chain model (TokenFactory/Chain.v):
+    * [raw c s m]: the msg-server handler as a Go function — no ValidateBasic, no cache context;
+      it returns the state it LEAVES BEHIND (also on failure) and the outcome;
+      [deliver_raw] = ValidateBasic, then [raw], kept only on success.
+    * [xstate] = the first-round state [st] + [params] (Params.DenomCreationFee, now state) +
+      [index] (creator -> denoms store) + [pool] (distribution's community pool).
+    * [xop]: [XBase o] a first-round op under the fee in force; [XRaw m] a raw msg-server call;
+      [XWasm ct w] contract [ct]'s token_factory_msg through x/tokenfactory/bindings
+      ([perform]: WCreate (optional metadata) / WMint d x mint_to / WBurn d x burn_from /
+      WChangeAdmin / WSetMeta), under wasmd's commit-on-success; [XParams authority creator fee ok]
+      MsgUpdateParams; [XGenesis] ExportGenesis + InitGenesis next to the same bank state.
+      [honest o]: o is not a raw call (everything the chain can do).
+    * [str_of] = sdk.AccAddress.String().  Assumed of bech32: "" is not an address, and String() of
+      an account parses back to that account (both checked on every correspondence case).
+    ====================================================================================== *)
+
+(** ---- atomicity at delivery level; the raw msg server characterised ---- *)
+
+(** A delivered message IS ValidateBasic followed by the raw handler with its writes kept only on
+    success.  On its own the raw handler is not atomic — but a failed raw call never leaves a changed
+    admin record or changed metadata, and a failed raw Mint (panics aside) leaves either nothing or,
+    when the recipient is unparsable / blocked, exactly the minted amount on the module account and
+    in the supply. *)
+Theorem delivery_is_atomic_over_raw_handler : forall (c : cfg),
+  (forall s m, deliver c s m = deliver_raw c s m) /\
+  (forall s m s' e, raw c s m = (s', Err e) -> metas s' = metas s /\ admins s' = admins s) /\
+  (forall s cr d x s' e, raw c s (MMint cr d x) = (s', Err e) -> e <> EPanic ->
+     0 <= bal (led s) (mod_tf c) d ->
+     s' = s \/
+     ((e = EAddr \/ e = EBlocked) /\ metas s' = metas s /\ admins s' = admins s /\
+      (forall a' d', bal (led s') a' d' = bal (led s) a' d' + bdelta (mod_tf c) d a' d' x) /\
+      (forall d', supply (led s') d' = supply (led s) d' + sdelta d d' x))).
+Proof.
+  exact (fun c => conj (deliver_is_commit_on_success c)
+               (conj (raw_failure_keeps_control c) (raw_mint_failure c))).
+Qed.
+Print Assumptions delivery_is_atomic_over_raw_handler.
+
+(** The raw handler compares STRINGS: a privileged raw call goes through iff creator = stored admin
+    string; for a non-empty creator that is the stored admin.  The empty creator matches the empty
+    admin of a never-created (or renounced) denom: the witness below is accepted by [raw] and
+    refused by [deliver] — ValidateBasic in front of the handler is needed (every path to the msg
+    server has it: translator fact [sdk_router_validates_basic] + harness gate). *)
+Theorem raw_handler_admin_match : forall (c : cfg),
+  (forall s m s' r d, raw c s m = (s', Ok r) -> privileged m = Some d ->
+     sender m = admin_str s d /\ (sender m <> EmptyString -> admin_rec s d = Some (sender m))) /\
+  (exists c0 s m s' d, addr_of c0 EmptyString = None /\ privileged m = Some d /\ admin_rec s d = None /\
+     raw c0 s m = (s', Ok EmptyString) /\ admin_rec s' d = Some "bob"%string /\
+     deliver c0 s m = (s, Err EValidate)).
+Proof.
+  refine (fun c => conj (raw_admin_string_match c) _).
+  exists XEx.cf, empty_state, (MChangeAdmin "" XEx.never "bob"), (set_admin empty_state XEx.never "bob"), XEx.never.
+  repeat split.
+Qed.
+Print Assumptions raw_handler_admin_match.
+
+(** ---- the wasm bindings: a contract is the admin ---- *)
+
+Theorem wasm_only_admin_acts : forall (c : cfg) (str_of : acct -> string),
+  addr_of c EmptyString = None -> (forall a, addr_of c (str_of a) = Some a) ->
+  forall xs ct w xs' r d,
+  perform c str_of xs ct w = (xs', Ok r) -> wprivileged w = Some d ->
+  admin_rec (st xs) d = Some (str_of ct).
+Proof. exact wasm_only_admin. Qed.
+Print Assumptions wasm_only_admin_acts.
+
+(** What "mint credits the admin only" means for MintTokens{mint_to_address}: the binding is the
+    factory mint — which credits the admin contract and nobody else (first-round theorem) — followed
+    by an ordinary bank send of exactly those coins out of the contract's OWN balance.  Net effect:
+    supply +x, the recipient +x, every other balance of every denom unchanged (the admin's too,
+    unless it is the recipient): NOBODY IS DEBITED.  BurnTokens debits the contract's own balance
+    only ([burn_from_address] must be "" or the contract itself). *)
+Theorem wasm_mint_burn_effects : forall (c : cfg) (str_of : acct -> string),
+  addr_of c EmptyString = None -> (forall a, addr_of c (str_of a) = Some a) ->
+  (forall xs ct d x to xs' r,
+    perform c str_of xs ct (WMint d x to) = (xs', Ok r) ->
+    exists rc s1,
+      addr_of c to = Some rc /\ admin_rec (st xs) d = Some (str_of ct) /\ 0 < x /\
+      deliver (cfg_at c xs) (st xs) (MMint (str_of ct) d x) = (s1, Ok EmptyString) /\
+      step_out (cfg_at c xs) s1 (OXSend ct rc d x) = (st xs', Ok EmptyString) /\
+      (forall a' d', bal (led (st xs')) a' d' = bal (led (st xs)) a' d' + bdelta rc d a' d' x) /\
+      (forall d', supply (led (st xs')) d' = supply (led (st xs)) d' + sdelta d d' x) /\
+      metas (st xs') = metas (st xs) /\ admins (st xs') = admins (st xs) /\
+      params xs' = params xs /\ index xs' = index xs /\ pool xs' = pool xs) /\
+  (forall xs ct d x from xs' r,
+    perform c str_of xs ct (WBurn d x from) = (xs', Ok r) ->
+    (from = EmptyString \/ from = str_of ct) /\ admin_rec (st xs) d = Some (str_of ct) /\
+    0 < x <= bal (led (st xs)) ct d /\
+    (forall a' d', bal (led (st xs')) a' d' = bal (led (st xs)) a' d' - bdelta ct d a' d' x) /\
+    (forall d', supply (led (st xs')) d' = supply (led (st xs)) d' - sdelta d d' x) /\
+    metas (st xs') = metas (st xs) /\ admins (st xs') = admins (st xs) /\
+    params xs' = params xs /\ index xs' = index xs /\ pool xs' = pool xs).
+Proof. exact (fun c str_of H1 H2 => conj (wasm_mint_effect c str_of H1 H2) (wasm_burn_effect c str_of H1 H2)). Qed.
+Print Assumptions wasm_mint_burn_effects.
+
+(** CreateDenom through the binding: factory/<contract>/<sub>, fresh, the contract is the admin and
+    is indexed, the fee in force is paid by the contract into the community pool, nothing minted. *)
+Theorem wasm_create_in_contract_namespace : forall (c : cfg) (str_of : acct -> string),
+  (forall a, addr_of c (str_of a) = Some a) ->
+  forall xs ct sub md xs' d,
+  perform c str_of xs ct (WCreate sub md) = (xs', Ok d) ->
+  d = construct (str_of ct) sub /\ meta_of (st xs) d = None /\
+  admin_rec (st xs') d = Some (str_of ct) /\ meta_of (st xs') d <> None /\
+  In (str_of ct, d) (index xs') /\
+  (forall a' d', bal (led (st xs')) a' d' = bal (led (st xs)) a' d'
+      - (if a' =? ct then amt_of (params xs) d' else 0)
+      + (if a' =? mod_distr c then amt_of (params xs) d' else 0)) /\
+  (forall d', supply (led (st xs')) d' = supply (led (st xs)) d') /\
+  (forall d', pool_of xs' d' = pool_of xs d' + amt_of (params xs) d') /\
+  params xs' = params xs /\
+  (forall d', d' <> d -> admin_rec (st xs') d' = admin_rec (st xs) d' /\ meta_of (st xs') d' = meta_of (st xs) d') /\
+  deconstruct (addr_of c) d = Some (ct, sub) /\ index xs' = idx_add (index xs) (str_of ct) d.
+Proof. exact wasm_create_effect. Qed.
+Print Assumptions wasm_create_in_contract_namespace.
+
+(** ---- the creation fee and the params ---- *)
+
+(** A delivered create charges exactly the fee IN FORCE at that moment ([params xs]): per denom,
+    creator - amount, distribution module account + amount, community pool + amount; supply of every
+    denom unchanged (the fee is not burned); a refused create charges nothing and changes nothing. *)
+Theorem creation_fee_exact : forall (c : cfg) (str_of : acct -> string) (authority : string),
+  (forall xs cr sub xs' d,
+    xstep_out c str_of authority xs (XBase (OMsg (MCreate cr sub))) = (xs', Ok d) ->
+    exists a, addr_of c cr = Some a /\
+      (forall a' d', bal (led (st xs')) a' d' = bal (led (st xs)) a' d'
+          - (if a' =? a then amt_of (params xs) d' else 0)
+          + (if a' =? mod_distr c then amt_of (params xs) d' else 0)) /\
+      (forall d', supply (led (st xs')) d' = supply (led (st xs)) d') /\
+      (forall d', pool_of xs' d' = pool_of xs d' + amt_of (params xs) d') /\
+      params xs' = params xs /\ In (cr, d) (index xs')) /\
+  (forall xs cr sub xs' e,
+    xstep_out c str_of authority xs (XBase (OMsg (MCreate cr sub))) = (xs', Err e) -> xs' = xs).
+Proof.
+  exact (fun c str_of authority => conj (create_charges_fee_in_force c str_of authority)
+                                        (refused_create_charges_nothing c str_of authority)).
+Qed.
+Print Assumptions creation_fee_exact.
+
+(** The fee changes only by a MsgUpdateParams whose authority AND creator are the keeper's authority
+    (a real account) and whose coins validate; nothing else moves. *)
+Theorem params_only_by_authority : forall (c : cfg) (str_of : acct -> string) (authority : string),
+  forall xs a cr f v xs' r,
+  xstep_out c str_of authority xs (XParams a cr f v) = (xs', Ok r) ->
+  a = authority /\ cr = authority /\ v = true /\ (exists acc, addr_of c authority = Some acc) /\
+  params xs' = f /\ st xs' = st xs /\ index xs' = index xs /\ pool xs' = pool xs.
+Proof. exact params_only_authority. Qed.
+Print Assumptions params_only_by_authority.
+
+(** ---- all extended histories ---- *)
+
+(** supply = mints - burns over every honest extended history: users' messages, contracts through
+    the bindings, fee changes, genesis round trips; other modules' mint / burn as explicit deltas. *)
+Theorem supply_eq_mints_minus_burns_extended : forall (c : cfg) (str_of : acct -> string) (authority : string),
+  addr_of c EmptyString = None -> (forall a, addr_of c (str_of a) = Some a) ->
+  forall (ops : list xop) (xs : xstate) (d : denom), Forall honest ops ->
+  supply (led (st (xrun c str_of authority ops xs))) d =
+  supply (led (st xs)) d + xtotal c str_of authority (xminted c str_of authority d) ops xs
+                         - xtotal c str_of authority (xburned c str_of authority d) ops xs
+                         + xtotal c str_of authority (xext c d) ops xs.
+Proof. exact xsupply_accounting. Qed.
+Print Assumptions supply_eq_mints_minus_burns_extended.
+
+(** An existing denomination is never created again — by a message, a binding, or even a raw call,
+    and not after a genesis round trip either: over EVERY extended history. *)
+Theorem created_once_extended : forall (c : cfg) (str_of : acct -> string) (authority : string),
+  addr_of c EmptyString = None -> (forall a, addr_of c (str_of a) = Some a) ->
+  forall (ops : list xop) (xs : xstate), NoDup (xcreated c str_of authority ops xs).
+Proof. exact xcreated_once. Qed.
+Print Assumptions created_once_extended.
+
+(** Only the current admin, for users (messages) and contracts (bindings) alike. *)
+Theorem only_admin_acts_extended : forall (c : cfg) (str_of : acct -> string) (authority : string),
+  addr_of c EmptyString = None -> (forall a, addr_of c (str_of a) = Some a) ->
+  forall xs o xs' r a d,
+  xstep_out c str_of authority xs o = (xs', Ok r) -> xprivileged str_of o = Some (a, d) ->
+  admin_rec (st xs) d = Some a /\ exists acc, addr_of c a = Some acc.
+Proof. exact xonly_admin_acts. Qed.
+Print Assumptions only_admin_acts_extended.
+
+(** ---- creator index and genesis ---- *)
+
+(** [xwf]: first-round [wf] + every admin record is indexed + every index entry is a factory denom
+    of the account its creator string parses to + stored admins are "" or addresses.  It holds at
+    genesis, survives every honest history, and makes the index exact. *)
+Theorem creator_index_exact : forall (c : cfg) (str_of : acct -> string) (authority : string),
+  addr_of c EmptyString = None -> (forall a, addr_of c (str_of a) = Some a) ->
+  (forall f, xwf c (empty_xstate f)) /\
+  (forall ops xs, Forall honest ops -> xwf c xs -> xwf c (xrun c str_of authority ops xs)) /\
+  (forall xs, xwf c xs ->
+    (forall cr d, In d (denoms_of xs cr) ->
+       admin_rec (st xs) d <> None /\ meta_of (st xs) d <> None /\
+       exists a sub, deconstruct (addr_of c) d = Some (a, sub) /\ addr_of c cr = Some a) /\
+    (forall d, admin_rec (st xs) d <> None -> exists cr, In d (denoms_of xs cr))).
+Proof.
+  exact (fun c str_of authority H1 H2 =>
+    conj (xwf_empty c) (conj (xwf_run c str_of authority H1 H2) (index_exact c))).
+Qed.
+Print Assumptions creator_index_exact.
+
+(** A genesis export / import never panics on a reachable state and keeps every admin record (of
+    every denom string), the whole ledger, the params and the pool.  It RESETS the bank metadata of
+    every factory denom to the bare one (observed on the real code: InitGenesis runs after bank's and
+    calls createDenomAfterValidation — design/C16.md) and re-keys the index by the canonical spelling
+    of the creator. *)
+Theorem genesis_roundtrip_keeps_admins : forall (c : cfg) (str_of : acct -> string),
+  (forall a, addr_of c (str_of a) = Some a) ->
+  forall xs, xwf c xs ->
+  exists xs', genesis_roundtrip c str_of xs = (xs', Ok EmptyString) /\
+    (forall d, admin_rec (st xs') d = admin_rec (st xs) d) /\
+    led (st xs') = led (st xs) /\ params xs' = params xs /\ pool xs' = pool xs /\
+    (forall d, admin_rec (st xs) d <> None -> meta_of (st xs') d = Some 0) /\
+    (forall d, admin_rec (st xs) d = None -> meta_of (st xs') d = meta_of (st xs) d) /\
+    (forall cr d, In (cr, d) (index xs') <->
+       exists cr0 a sub, In (cr0, d) (index xs) /\ deconstruct (addr_of c) d = Some (a, sub) /\ cr = str_of a) /\
+    xwf c xs'.
+Proof. exact genesis_roundtrip_effect. Qed.
+Print Assumptions genesis_roundtrip_keeps_admins.
